@@ -14,7 +14,13 @@ def header(m):
     return [0x7E, 2]
 
 
-def mc_codec(c, maxopt, shards=None, timeout=1500, workers=None, liveness=True):
+def deep_messages(c, k, maxoptslots=10):
+    """seeded choice of k message indices (1-based) with at most maxoptslots optional slots, for depth-2 runs in the quick tier"""
+    idx = [i + 1 for i, t in enumerate(TABLES) if 1 <= sum(1 for s in t["slots"] if not s["mand"]) <= maxoptslots]
+    return sorted(c.rng.sample(idx, min(k, len(idx))))
+
+
+def mc_codec(c, maxopt, shards=None, timeout=1500, workers=None, liveness=True, deep=()):
     """stage A + B in one TLC run per shard of the message range: invariants of the decoder machine and of
     the codec laws are checked on every path of the generator tree while each complete input is printed."""
     sd = c.spec_dir("mc-codec")
@@ -32,8 +38,13 @@ def mc_codec(c, maxopt, shards=None, timeout=1500, workers=None, liveness=True):
             t = t.replace("PROPERTY Terminates\n", "")
         open(os.path.join(sd, name + ".cfg"), "w").write(t)
         jobs.append(name)
-    w = workers or max(2, NCPU // max(1, len(jobs)))
-    with ThreadPoolExecutor(max_workers=len(jobs)) as ex:
+    for i in deep:                      # selected messages additionally at depth 2 (pairs, reordering, duplicates)
+        name = "MC_Codec_deep%d" % i
+        t = cfg.replace("MaxOpt = 1", "MaxOpt = 2").replace("MsgLo = 1", "MsgLo = %d" % i).replace("MsgHi = 45", "MsgHi = %d" % i).replace("PROPERTY Terminates\n", "")
+        open(os.path.join(sd, name + ".cfg"), "w").write(t)
+        jobs.append(name)
+    w = workers or max(2, NCPU // max(1, min(len(jobs), 8)))
+    with ThreadPoolExecutor(max_workers=min(len(jobs), 8)) as ex:
         results = list(ex.map(lambda n: c.tlc(sd, "MC_Codec", n, workers=w, timeout=timeout, xmx="6g"), jobs))
     for name, res in zip(jobs, results):
         if res.rc == 124: raise Infra("MC_Codec timed out (%s)" % name)
@@ -44,7 +55,9 @@ def mc_codec(c, maxopt, shards=None, timeout=1500, workers=None, liveness=True):
                                      invariants="DTypeOK DProgress DPosOK DAllocBound DAgrees GrammarAgrees WantRecovered RoundTrip ReEncode" + (" + PROPERTY Terminates" if liveness else "")))
         for ln in res.printed:
             if ln.startswith('"{'):
-                cases.append(json.loads(json.loads(ln)))
+                g = json.loads(json.loads(ln))
+                if "deep" in name and g["n"] < 2: continue       # depth-1 paths of this message are already in the base run
+                cases.append(g)
     if not cases:
         raise Infra("MC_Codec printed no cases")
     return cases
